@@ -95,8 +95,9 @@ EllPaRoundTrip(r) == Elongated(r) => CircWithin180(r.e_pa_out, r.e_pa_in, AngTol
 \* its angle a bearing East of North (axis: modulo 180)
 EllGreatCircle(r) == RelWithin(r.e_a_out, r.e_sep, LenTolPpm)
 EllBearing(r)     == CircWithin180(r.e_pa_out, r.e_bear, AngTolUdeg)
+\* (an axis: a pixel angle theta and theta + 180 describe the same ellipse)
 EllForward(r)     == /\ RelWithin(r.e_fsep, r.e_a_in, LenTolPpm)
-                     /\ CircWithin360(r.e_fbear, r.e_pa_in, AngTolUdeg)
+                     /\ CircWithin180(r.e_fbear, r.e_pa_in, AngTolUdeg)
 
 (* ----------------------- handedness facts ----------------------------- *)
 (* One pixel step whose standard sky end points differ by (h_de, h_dn) =   *)
@@ -125,6 +126,15 @@ PixBeamSame(a, b, th, r) == /\ RelWithin(a, r.q_a_ref, LenTolPpm)
                             /\ (Elongated(r) => CircWithin180(th, r.q_th_ref, AngTolUdeg))
 PsfPixLookups(r) == /\ PixBeamSame(r.q_a_s2p, r.q_b_s2p, r.q_th_s2p, r)
                     /\ PixBeamSame(r.q_a_p2p, r.q_b_p2p, r.q_th_p2p, r)
+
+(* With a psf map (informational, the property statement does not name it) *)
+(* the psf returned for a sky position is the one stored in the map pixel  *)
+(* that contains the position: the pixel whose 1-based FITS coordinates    *)
+(* (x = column, y = row) are the position's pixel coordinates rounded to   *)
+(* the nearest integer, i.e. array element [y - 1][x - 1].  want_* is that *)
+(* pixel (from astropy on the map's own header; queries keep 0.2 pixel     *)
+(* away from pixel edges), got_* the pixel whose psf was returned.         *)
+PsfMapPixel(r) == r.got_row = r.want_row /\ r.got_col = r.want_col
 
 (* ----------------------- index conventions ---------------------------- *)
 (* The standard mapping as an identity on a linear integer WCS L: FITS     *)
